@@ -30,14 +30,17 @@ CHECKS = {
 
 # family configuration: exhaustive config, generator config, scenario counts per tier
 FAMILY = {
-    "C01": dict(mc="MC_Ledger", gen="MC_GenLedger", quick=260, thorough=2500, drivers=["secret", "configmap", "memory"]),
+    "C01": dict(mc="MC_Ledger", gen="MC_GenLedger", quick=240, thorough=2500, drivers=["secret", "configmap", "memory"],
+                sweep=(3, 40)),
     "C02": dict(mc="MC_Cluster", gen="MC_GenCluster", quick=260, thorough=2500, drivers=["secret", "memory", "configmap"]),
-    "C03": dict(mc="MC_Fault", gen="MC_GenFault", quick=260, thorough=2500, drivers=["secret", "configmap", "memory"]),
+    "C03": dict(mc="MC_Fault", gen="MC_GenFault", quick=200, thorough=2000, drivers=["secret", "configmap", "memory"],
+                sweep=(6, 60)),
     "C06": dict(mc="MC_Dry", gen="MC_GenDry", quick=260, thorough=2000, drivers=["secret", "memory", "configmap"]),
     "C07": dict(mc="MC_Own", gen="MC_GenOwn", quick=260, thorough=2000, drivers=["secret", "memory", "configmap"]),
     "C09": dict(mc="MC_Conc", gen="MC_GenConc", quick=150, thorough=1500, drivers=["secret", "memory", "configmap"],
                 extra_mc=["MC_ConcDep.cfg"], extra_gen=["MC_GenConcDep.cfg", "MC_GenConc3.cfg"]),
-    "C12": dict(mc="MC_Hooks", gen="MC_GenHooks", quick=260, thorough=2500, drivers=["secret", "memory", "configmap"]),
+    "C12": dict(mc="MC_Hooks", gen="MC_GenHooks", quick=220, thorough=2500, drivers=["secret", "memory", "configmap"],
+                sweep=(4, 40)),
 }
 
 
@@ -366,6 +369,41 @@ def run(pid, tier, seed, replay=None):
         raise Inconclusive("harness ran %d of %d scenarios" % (len(traces), len(scs)))
     sched_div = sum(1 for v in notes.values() if "sched-diverged" in v)
 
+    # fault sweep: for some fault-free base scenarios, the last operation is re-run with a fault at EVERY
+    # call position (1..number of visible calls observed in the fault-free run)
+    sweep_n = 0
+    if fam.get("sweep"):
+        nb = fam["sweep"][0 if tier == "quick" else 1]
+        bysid0 = {s_["id"]: s_ for s_ in scs}
+        sweeps = []
+        for sid, evs in traces:
+            sc = bysid0[sid]
+            ops = [st for st in sc["steps"] if "op" in st]
+            if not ops or any(st.get("fault") or st.get("crash") for st in ops) or ops[-1]["op"] == "uninstall":
+                continue
+            if ops[-1]["flags"].get("dryRun"):
+                continue
+            ends = [e for e in evs if e["ev"] == "end"]
+            if not ends or ends[-1]["calls"] < 3:
+                continue
+            for k in range(1, ends[-1]["calls"] + 1):
+                c = json.loads(json.dumps(sc))
+                c["id"] = "%s_f%d" % (sid, k)
+                last = [st for st in c["steps"] if "op" in st][-1]
+                last["fault"] = k
+                sweeps.append(c)
+            nb -= 1
+            if nb <= 0:
+                break
+        if sweeps:
+            tf2, _ = vlib.run_scenarios(hv, sweeps, d, "sweep")
+            ev2 = vlib.load_trace(tf2)
+            tr2 = vlib.split_traces(ev2)
+            scs += sweeps
+            traces += tr2
+            events += ev2
+            sweep_n = len(sweeps)
+
     race = None
     if pid == "C09":
         race = race_run(d, scs, seed, tier)
@@ -424,6 +462,7 @@ def run(pid, tier, seed, replay=None):
         "fault_plans": planned, "fault_plans_that_hit_a_call": hit, "fault_hits_on_a_sibling_call_of_the_same_batch": drift,
         "known_findings_observed": dict(res["known"]),
         "schedules_not_followed_by_the_real_code": sched_div,
+        "fault_sweep_scenarios_every_call_position": sweep_n,
         "race_detector": race,
         "evaluations": len(scs), "distinct_nontrivial": distinct_end,
         "rule": "scenarios are behaviours of Helm.tla drawn by TLC -simulate (seeded); distinct_nontrivial counts distinct "
